@@ -552,19 +552,23 @@ def indexing(ctx):
 
         class Val(PyStub):
             _isa = ('Atoms',)
-            view = {'pos': NEWP, 'atype': NEWA, 'tag': NEWT}
+            view = {'tag': NEWT, 'pos': NEWP, 'atype': NEWA}       # same property set, assigned in another order than the receiver's: rows are matched by name
         obj = SymObj(cls, {'view': table()}, 'self')
         ev = SymEval(module_aliases(ctx.mod(AT)))
+        why = ''
         try:
             r = [q for q in ev.run_fn(si, [obj, index, Val()], {}) if q.done == 'return']
-        except (Opaque, WouldRaise) as e:
+        except WouldRaise as e:
+            r, why = [], str(e)
+        except Opaque as e:
             raise AnalysisError('Atoms.__setitem__ (%s): %s' % (tag, e))
         v = obj.attrs['view']
         wantp, wantt, wanta = POS.copy(), TAG.copy(), TYP.copy()
         for k, i in enumerate(rows):
             wantp[i], wantt[i], wanta[i] = NEWP[k], NEWT[k], NEWA[k]
         ok = len(r) == 1 and equal(np.asarray(v['pos'], dtype=object), wantp, deep=False) and equal(np.asarray(v['tag'], dtype=object), wantt, deep=False) and [int(x) for x in v['atype']] == [int(x) for x in wanta]
-        ctx.ob('INDEXING', AT + '::Atoms.__setitem__', '%s: every property of the given atoms is written at the same rows %s, all other rows untouched' % (tag, rows), bool(ok), node=si, key='setitem ' + tag)
+        ctx.ob('INDEXING', AT + '::Atoms.__setitem__', '%s: every property of the given atoms (matched by name, whatever the order they were defined in) is written at the same rows %s, all other rows untouched' % (tag, rows), bool(ok), why,
+               node=si, key='setitem ' + tag)
     ctx.floor('INDEXING/forms', len(forms), 7)
     # refusals of row assignment
     for tag, val in (('a value that is not an Atoms table', 'notatoms'), ('a table with another property set', 'otherkeys')):
